@@ -1,7 +1,7 @@
 (* C01 property theorems. *)
 From Coq Require Import NArith ZArith List Bool Arith.
 From Coq Require Import Permutation Sorted.
-From OG Require Import C01.Model C01.Proofs C01.Proofs2 C01.Proofs3.
+From OG Require Import C01.Model C01.Proofs C01.Proofs2 C01.Proofs3 C01.Proofs4.
 Import ListNotations.
 
 (* records appended to partition (counter mod n) starting from counter 0, replayed one record per unfinished
@@ -117,6 +117,28 @@ Example flush_skip_example :
   x_recovered (xrun false true ops) k1' = Some 4%Z /\ lww (x_acked (xrun false true ops)) k1' = Some 4%Z /\
   lww (x_acked (xrun false true ops)) k2 = Some 5%Z /\ x_recovered (xrun false true ops) k2 = Some 3%Z.
 Proof. vm_compute. repeat split; reflexivity. Qed.
+
+(* Design sketch for a repair of C01-walphase WITHOUT an epoch tag in the file name (NOTES.md; not a patch): one file number
+   per switch epoch shared by all partitions, counter re-phased at the switch, partition 0's file created before the epoch's
+   first record and removed FIRST, an epoch without its partition-0 file ignored at restart, live epochs replayed one after
+   the other. For every history, every n > 0 and EVERY number j of files already removed from the oldest live epoch (its
+   removal may only start after its commit: nj < nf): recovery from the files that are left equals the last-write-wins
+   state of the acknowledged writes - the file-by-file removal is atomic for recovery. *)
+Theorem C01_marker_first_removal_exact : forall (n : nat) (ops : list wop) (j : nat) (k : key), 0 < n ->
+  (j = 0 \/ nj (wrun ops) < nf (wrun ops)) ->
+  recovered_disk n (wrun ops) j k = lww (acked (wrun ops)) k.
+Proof. exact recovered_disk_exact. Qed.
+Print Assumptions C01_marker_first_removal_exact.
+
+(* non-vacuity: 3 partitions, a committed epoch of four records with an overwrite in it, its removal interrupted after one
+   and after two files (today's layout reverts the overwrite in such a state: Refuted.v C01_current_partial_removal_reverts) *)
+Example marker_first_example :
+  let ops := [WWrite [((1, 1, 1)%N, 10%Z)]; WWrite [((1, 1, 1)%N, 11%Z)]; WWrite [((1, 2, 1)%N, 12%Z)]; WWrite [((1, 1, 1)%N, 13%Z)];
+              WSwitch; WCommit; WWrite [((1, 2, 1)%N, 14%Z)]] in
+  nj (wrun ops) < nf (wrun ops) /\
+  recovered_disk 3 (wrun ops) 1 (1, 1, 1)%N = Some 13%Z /\ recovered_disk 3 (wrun ops) 2 (1, 1, 1)%N = Some 13%Z /\
+  recovered_disk 3 (wrun ops) 2 (1, 2, 1)%N = Some 14%Z.
+Proof. vm_compute. repeat split; try reflexivity; auto. Qed.
 
 (* re-applying in order a part of the history that is already in the data files changes nothing (replay of a log
    whose prefix is flushed) *)
